@@ -423,26 +423,49 @@ def evaluate(run, want=None):
             if not finite.all():
                 precondition_ok = False
             I.c("cluster_statistics_checked")
-        # tasks of this round
+        # tasks of this round: the K covariances of the statistics phase must each have been handed to the public optimiser exactly
+        # once (in whatever order), with the caller's lambda, W and N
         tasks = run.tasks[r * K:(r + 1) * K]
+        task_of_cluster = {}
         if len(run.tasks) >= (r + 1) * K and len(tasks) == K:
+            bound = []
             for k, t in enumerate(tasks):
                 fn = t["func"]
                 if getattr(fn, "__name__", "") != "admm_optimize_theta" or "fast_ticc.admm" not in getattr(fn, "__module__", ""):
                     I.v("C12", "round %d task %d was not submitted to the public optimiser entry point (%r)" % (r, k, fn))
+                    bound.append(None)
                     continue
                 b = bind_task(t)
                 if b is None:
                     I.v("C12", "round %d task %d: arguments do not bind to the optimiser's signature" % (r, k))
-                    continue
+                bound.append(b)
+            free = [j for j, b in enumerate(bound) if b is not None]
+            for k in range(K):
                 S_stat = st["out"]["arrays"][k]["empirical_covariance"]
-                if S_stat is not None and not instrument._arr_equal(np.asarray(b.get("empirical_covariance")), S_stat):
-                    I.v("C12", "round %d: optimisation task %d did not receive cluster %d's covariance" % (r, k, k))
+                if S_stat is None:
+                    continue
+                # prefer the task in cluster position, else any unclaimed task that received exactly this array
+                cand = ([k] if k in free else []) + [j for j in free if j != k]
+                hit = None
+                for j in cand:
+                    if instrument._arr_equal(np.asarray(bound[j].get("empirical_covariance")), S_stat):
+                        hit = j
+                        break
+                if hit is None:
+                    I.v("C12", "round %d: no optimisation task received cluster %d's covariance" % (r, k))
+                    continue
+                free.remove(hit)
+                task_of_cluster[k] = r * K + hit
+                b = bound[hit]
                 if not (b.get("sparsity_weight") is run.lam or _same_value(b.get("sparsity_weight"), run.lam_before)):
-                    I.v("C12", "round %d task %d: sparsity weight is not the caller's" % (r, k))
+                    I.v("C12", "round %d, task for cluster %d: sparsity weight is not the caller's" % (r, k))
                 if b.get("window_size") != W or b.get("num_data_series") != N:
-                    I.v("C12", "round %d task %d: window size / sensor count (%r,%r) != (%d,%d)" % (r, k, b.get("window_size"), b.get("num_data_series"), W, N))
+                    I.v("C12", "round %d, task for cluster %d: window size / sensor count (%r,%r) != (%d,%d)" % (r, k, b.get("window_size"), b.get("num_data_series"), W, N))
                 I.c("task_arguments_checked")
+            if any(j != k_ - r * K + r * K and False for k_, j in task_of_cluster.items()):
+                pass
+            if any(task_of_cluster.get(k) != r * K + k for k in task_of_cluster):
+                I.c("rounds_with_tasks_not_in_cluster_order")
         elif len(run.tasks) == 0:
             I.c("tasks_not_observed")        # the pool is not driven through apply_async: nothing to decide from
         elif r == 0 or len(run.tasks) < (r + 1) * K:
@@ -459,7 +482,7 @@ def evaluate(run, want=None):
                 precondition_ok = False
                 I.c("precondition_not_met_clusters")
                 continue
-            tr = run.task_results.get(r * K + k)
+            tr = run.task_results.get(task_of_cluster.get(k, r * K + k))
             raw_c = getattr(tr, "theta", None) if tr is not None and not isinstance(tr, BaseException) else None
             if th is None:
                 I.v("C03", "round %d cluster %d has no MRF after the optimisation phase" % (r, k))
@@ -478,7 +501,7 @@ def evaluate(run, want=None):
                         I.c("floor_checks")
                     else:
                         if th.shape != raw.shape or not np.array_equal(stack.bits(th), stack.bits(raw)):
-                            I.v("C09", "round %d: MRF of cluster %d is not the result of this round's optimisation task %d" % (r, k, k))
+                            I.v("C09", "round %d: MRF of cluster %d is not the result of the optimisation task that received its covariance" % (r, k))
                             # ... and then it is (almost surely) not the optimum for this cluster's covariance either
                             rec_ = getattr(tr, "_ticcmon", None)
                             if rec_ is not None and rec_.get("stopped") and th.shape == (NW, NW) and np.all(np.isfinite(th)):
